@@ -36,30 +36,22 @@ def restrict_preferences(profile: list[tuple], alternatives_set: Collection):
 
 
 def get_B(profile: list[tuple], alt_set: Collection, alternative: int):
-    # B_vals = []
-    B_a = set()
+    # B(a) is the intersection over all voters i of B(i, a)
+    B_a = None
 
-    # TODO: Check if B_vals workaround works
     instance = restrict_preferences(profile, alt_set)
 
     for i in instance:
         # Check if top(i) = a
-        # print("instance: ", i)
-        # print("alternative: ", alternative)
         if alternative == i[0]:
             # B(i, a) = {second(i)}
-            # B_vals.append(i[1])
-            if len(i) != 1:
-                B_a.add(i[1])
+            B_i = {i[1]} if len(i) != 1 else set()
         else:
-            # get all alternatives before a
-            # B_vals.append(i[:i.index(alternative)])
-            if len(B_a) == 0:
-                B_a = set(i[: i.index(alternative)])
-            else:
-                B_a = B_a.intersection(set(i[: i.index(alternative)]))
+            # B(i, a) = all alternatives ranked before a
+            B_i = set(i[: i.index(alternative)])
+        B_a = B_i if B_a is None else B_a.intersection(B_i)
 
-    return B_a
+    return B_a if B_a is not None else set()
 
 
 def is_single_peaked_on_tree(instance: OrdinalInstance):
@@ -83,7 +75,8 @@ def is_single_peaked_on_tree(instance: OrdinalInstance):
         # print("L_set: ", L_set)
 
         for a in L_set:
-            # print("C_set in for: ", C_set)
+            if len(C_set) < 3:
+                break
             B_a = get_B(orders, C_set, a)
             # print(f"a: {a}, B_a: {B_a}")
             if B_a:
